@@ -72,9 +72,18 @@ def _record(ob: Obligation, verdict, model, stats, want_smt2=False) -> Dict:
         rec["model"] = model_summary(model, ob)
     if verdict == "unknown":
         rec["reason"] = stats.get("reason", "")
-    if want_smt2:
+    if want_smt2 or _sampled(ob.name):
         rec["smt2"] = quant.to_smt2(ob.hyps, ob.goal)
     return rec
+
+
+def _sampled(name: str) -> bool:
+    """thorough tier: a VERIF_SEED-driven sample of obligations is exported as SMT-LIB2 for the other solvers"""
+    m = int(os.environ.get("VERIF_SMT2_SAMPLE_MOD", "0") or 0)
+    if m <= 0:
+        return False
+    seed = os.environ.get("VERIF_SEED", "0")
+    return int(hashlib.sha256((name + seed).encode()).hexdigest(), 16) % m == 0
 
 
 def discharge_batch(obls: List[Obligation], idxs: List[int], want_smt2: bool = False) -> List:
